@@ -133,12 +133,14 @@ func deepCopy(m map[string]interface{}) map[string]interface{} {
 
 var oddSupis = []string{"imsi-", "imsi", "", "imsi-1", "imsi-208930000000001/x", "imsi-../etc", "nai-", "nai-a", "gci-", "gli-x", "msisdn-1", "x",
 	"imsi-20893000000000100000000000000000", "imsi-2089%2F3", "nai-user@realm", "IMSI-208930000000001",
-	"imsi-" + strings.Repeat("1234567890", 30), "imsi-20893\x00", "imsi-２０８９３", "imsi-208 93", "imsi-208930000000001.cdr", "imsi-.", "imsi-.."}
+	"imsi-" + strings.Repeat("1234567890", 30), "imsi-" + strings.Repeat("1234567890", 25), "imsi-" + strings.Repeat("7", 246), "imsi-" + strings.Repeat("7", 247),
+	"imsi-" + strings.Repeat("7", 255), "imsi-" + strings.Repeat("7", 16), "imsi-20893\x00", "imsi-２０８９３", "imsi-208 93", "imsi-208930000000001.cdr", "imsi-.", "imsi-.."}
 
 var oddRecharge = []string{"nounderscore", "_", "__", "imsi-208930000000001_", "_1", "imsi-208930000000001_x", "imsi-208930000000001_1_2",
 	"imsi-208930000000001_-1", "imsi-208930000000001_99999999999", "unknown_1", "%20", "imsi-208930000000001_1"}
 
 var oddPlmn = [][2]string{{"20", "93"}, {"208", "9"}, {"", ""}, {"2080", "930"}, {"208", ""}, {"xyz", "93"}, {"208", "9301"},
+	{"20", "893"}, {"2089", "3"}, {"2", "0893"}, {"20893", ""}, {"", "20893"}, {"2089", "30"}, {"2", "08930"}, {"208930", ""},
 	{"é1", "93"}, {"208", "é"}, {"２０８", "93"}, {"20\u00e9", "9\u00e9"}, {"208", "\u20ac"}}
 
 // c11Enumeration: (route, path, how) for all single member mutations, then all pairs of
@@ -410,7 +412,7 @@ func (g *gen) rawProbe(route, name string, body map[string]interface{}, state in
 // ---------------------------------------------------------------- C10
 
 var c10Supis = []string{"imsi-1", "imsi-12", "imsi-123", "imsi-1234", "imsi-2", "imsi-21", "imsi-20893000000001", "imsi-208930000000011", "imsi-2089300000000"}
-var c10Names = []string{"", "1", "10", "2", "23", "3", "smf", "smf1", "smf10", "x", "x1", "0", "00", "4"}
+var c10Names = []string{"", "1", "10", "2", "23", "3", "smf", "smf1", "smf10", "x", "x1", "0", "00", "4", "SMF West 1", "a b", "a+b", "smf@west", "smf~1", "smf.west"}
 
 func GenC10(seed uint64) *Scenario {
 	g := newGen("C10", seed)
